@@ -58,7 +58,7 @@ def shards(tier, seed):
 
 
 def min_required(tier):
-    return {"pairs_compared": 2000, "valid_pairs": 800, "invalid_pairs": 400}
+    return {"pairs_compared": 1500, "valid_pairs": 800, "invalid_pairs": 400}
 
 
 def validation_args(v, data):
